@@ -36,6 +36,9 @@ class Prop:
     def nontrivial(self, r):
         return True
 
+    def post_check(self, results):
+        return []
+
 
 LEXEMES = [b"{{", b"}}", b"{", b"}", b"(", b")", b"[", b"]", b"@if", b"@else", b"@elseif", b"@end", b"@each", b"@for",
            b"@break", b"@breakIf", b"@continue", b"@continueIf", b"@slot", b"@component", b"@insert", b"@reserve",
@@ -1300,3 +1303,516 @@ class C07(Prop):
 
 
 PROPS["C07"] = C07()
+
+
+# ----------------------------------------------------------------------------- C13
+
+class C13(Prop):
+    timeout_ms = 5000
+    rule = ("generated valid templates of 1..30 lines made of every multi-line token kind (text runs with LF and CRLF, "
+            "string literals containing line breaks, multi-line comments, {{ }} blocks spread over lines, directives) with "
+            "ONE fault injected at a statement position; the faulty construct sits on one line whose number is known by "
+            "construction. Fault kinds: undefined identifier, mistyped operand, unknown function, unknown property (dot and "
+            "bracket), division and modulo by zero, illegal character, unexpected token, undefined insert and unknown "
+            "component (in trees), plus faults inside a page that uses a layout. Oracle: reported line = constructed line; "
+            "for load-time and page faults the reported path = absolute path of the file containing the construct. "
+            "Non-trivial: at least one multi-line token precedes the fault.")
+    explanation = ("Theorems: the lexer's line counter is the number of LF before the offset (C19's invariant), so the line "
+                   "of every error is a pure function of the source. Correspondence: model = implementation including "
+                   "line, path and message of every error. Oracle: constructed line and path.")
+    assumptions = ["the faulty construct is written on a single line"]
+
+    FILLERS = ["text\n", "<p>\n  para\n</p>\n", "a\r\nb\r\n", "{{ 'x' }}\n", "{{ \"multi\nline\nstring\" }}\n", "{{-- one --}}\n",
+               "{{-- a\n   b\n   c --}}\n", "{{\n  1 +\n  2\n}}\n", "@if(true)\n yes\n@end\n", "@each(i in [1, 2])\n  {{ i }}\n@end\n",
+               "{{ ok = 1 }}\n", "\n\n", "no newline ", "{{ [1,\n 2,\n 3].len() }}\n", "@if(false)\n@elseif(true)\n e\n@else\n z\n@end\n",
+               "\\{{ esc }}\n", "{{ {a: 1,\n b: 2}.a }}\n"]
+    FAULTS = [("{{ zz9 }}", "eval"), ("{{ 1 + 'str' }}", "eval"), ("{{ 1.nofunc() }}", "eval"), ("{{ ob.nope }}", "eval"),
+              ("{{ ob['nope'] }}", "eval"), ("{{ 1 / 0 }}", "eval"), ("{{ 7 % 0 }}", "eval"), ("{{ # }}", "parse"),
+              ("{{ 1 + ) }}", "parse"), ("{{ ] }}", "parse"), ("@if(zz9)x@end", "eval"), ("@each(q in 5)x@end", "eval"),
+              ("{{ ok9 = 1 }}{{ ok9 = 's' }}", "eval"), ("{{ -'s' }}", "eval"), ("{{ 'a' < 'b' }}", "eval"),
+              ("@breakIf(zz9)", "eval"), ("{{ [1][zz9] }}", "eval"), ("{{ true ? zz9 : 1 }}", "eval")]
+    DATA = "((%s (map (%s (int 1)))))" % (hx("ob"), hx("k"))
+
+    def build(self, rng):
+        pre = [rng.choice(self.FILLERS) for _ in range(rng.choice([0, 1, 2, 3, 5, 8]))]
+        post = [rng.choice(self.FILLERS) for _ in range(rng.choice([0, 1, 2]))]
+        fault, kind = rng.choice(self.FAULTS)
+        before = "".join(pre)
+        line = before.count("\n") + 1
+        return before + fault + rng.choice(["", "\n", " tail\n"]) + "".join(post), line, kind
+
+    def generate(self, rng, tier):
+        lines = []
+        n = {"quick": 3000, "thorough": 40000, "search": 8000}[tier]
+        for i in range(n):
+            src, line, kind = self.build(rng)
+            w = rng.random()
+            if w < 0.55:
+                lines.append(tree_case("C13:s%d" % i, [], [op_evalstr(src, self.DATA)], ["line:0:%d" % line, "nopanic"]))
+            elif w < 0.8:
+                files = [("tpl/pg.tw", "file", src)]
+                if kind == "parse":
+                    lines.append(tree_case("C13:f%d" % i, files, [op_new("tpl", ".tw")],
+                                           ["line:0:%d" % line, "path:0:" + hx("$ROOT/tpl/pg.tw"), "nopanic"]))
+                else:
+                    lines.append(tree_case("C13:f%d" % i, files, [op_new("tpl", ".tw"), op_string("pg", self.DATA)],
+                                           ["ok:0", "line:1:%d" % line, "path:1:" + hx("$ROOT/tpl/pg.tw"), "nopanic"]))
+            elif w < 0.9:
+                # undefined insert / unknown component at a known line of the page
+                pre = "".join(rng.choice(["text\n", "{{-- c\n c --}}\n", "<p>\n</p>\n", ""]) for _ in range(rng.choice([0, 1, 3])))
+                ln = pre.count("\n") + 1
+                if rng.random() < 0.5:
+                    page = "@use('~m')\n" + pre.replace("text", "") + "@insert('nosuch')x@end\n"
+                    ln = page[: page.index("@insert")].count("\n") + 1
+                    files = [("tpl/pg.tw", "file", page), ("tpl/layouts/m.tw", "file", "L@reserve('a')")]
+                else:
+                    page = pre + "@component('~gone')\n"
+                    files = [("tpl/pg.tw", "file", page)]
+                lines.append(tree_case("C13:t%d" % i, files, [op_new("tpl", ".tw")],
+                                       ["line:0:%d" % ln, "path:0:" + hx("$ROOT/tpl/pg.tw"), "nopanic"]))
+            else:
+                # a parse fault inside a layout / component file: reported with that file's path
+                if rng.random() < 0.5:
+                    files = [("tpl/pg.tw", "file", "@use('~m')@insert('a', 1)"), ("tpl/layouts/m.tw", "file", src if kind == "parse" else "ok\n{{ # }}")]
+                    ln = line if kind == "parse" else 2
+                    path = "$ROOT/tpl/layouts/m.tw"
+                else:
+                    files = [("tpl/pg.tw", "file", "@component('~c')"), ("tpl/components/c.tw", "file", src if kind == "parse" else "ok\n\n{{ ) }}")]
+                    ln = line if kind == "parse" else 3
+                    path = "$ROOT/tpl/components/c.tw"
+                lines.append(tree_case("C13:l%d" % i, files, [op_new("tpl", ".tw")], ["line:0:%d" % ln, "path:0:" + hx(path), "nopanic"]))
+        return lines, {"exhaustive": False, "distribution": {"cases": n, "fault_kinds": len(self.FAULTS) + 4}}
+
+
+PROPS["C13"] = C13()
+
+
+# ----------------------------------------------------------------------------- C14
+
+class C14(Prop):
+    timeout_ms = 8000
+    rule = ("programs and trees biased to objects with 2..8 keys (printed, dumped, used as component arguments), object "
+            "literals and component arguments with several failing entries, pages with two undefined inserts, component "
+            "uses with two duplicated slots, trees with two faulty files, data maps with two faulty entries; every "
+            "operation is repeated 12 (quick) / 60 (thorough) times inside one history, after a reload in the same "
+            "process, and the whole history is run in 3 / 10 fresh worker processes. Oracle: all repetitions agree "
+            "byte for byte (output, or message + line + path). shuffle() and rand() are excluded.")
+    explanation = ("Theorems: printing an object, evaluating an object literal and binding data go through a sort of the "
+                   "keys, so the model's result is independent of the order in which the association list is presented "
+                   "(asort is invariant under permutations of a list with distinct keys). Correspondence: model = "
+                   "implementation. Oracle: repetitions and fresh processes agree.")
+    assumptions = ["Go randomises map iteration per loop; the number of repetitions bounds the chance of missing an order-dependent site"]
+
+    KEYS = ["a", "b", "c", "d", "e", "zeta", "Alpha", "k1"]
+
+    def obj_lit(self, rng, nk, failing=0):
+        ks = rng.sample(self.KEYS, nk)
+        vals = [rng.choice(["1", "'s'", "true", "[1, 2]", "{x: 1, y: 2}", "nil", "1.5"]) for _ in ks]
+        for j in rng.sample(range(nk), min(failing, nk)):
+            vals[j] = rng.choice(["zz%d" % j, "1 + 's%d'" % j, "1 / 0", "nofn%d()" % j if False else "yy%d" % j])
+        return "{" + ", ".join("%s: %s" % kv for kv in zip(ks, vals)) + "}"
+
+    def generate(self, rng, tier):
+        reps = {"quick": 12, "thorough": 60, "search": 20}[tier]
+        procs = {"quick": 3, "thorough": 10, "search": 3}[tier]
+        lines = []
+        n = {"quick": 60, "thorough": 400, "search": 120}[tier]
+        for i in range(n):
+            k = i % 7
+            nk = rng.choice([2, 3, 5, 8])
+            if k == 0:
+                src = "{{ %s }}|@dump(%s)" % (self.obj_lit(rng, nk), self.obj_lit(rng, nk))
+                files, ops = [], [op_evalstr(src)] * reps
+            elif k == 1:
+                src = "{{ %s }}" % self.obj_lit(rng, nk, failing=2)
+                files, ops = [], [op_evalstr(src)] * reps
+            elif k == 2:
+                d = "(" + " ".join("(%s %s)" % (hx(key), rng.choice(["(int 1)", "(chan)", "(func)", "(str 61)"])) for key in
+                                   rng.sample(self.KEYS + ["loop"], nk)) + ")"
+                files, ops = [], [op_evalstr("{{ a }}x", d)] * reps
+            elif k == 3:
+                page = "@use('~m')@insert('u1')x@end@insert('u2', 2)@insert('u3')y@end@insert('a', 1)"
+                files = [("tpl/pg.tw", "file", page), ("tpl/layouts/m.tw", "file", "L@reserve('a')")]
+                ops = [op_new("tpl", ".tw")] * reps
+            elif k == 4:
+                page = "@component('~c')@slot('p')1@end@slot('q')2@end@slot('p')3@end@slot('q')4@end"
+                files = [("tpl/pg.tw", "file", page), ("tpl/components/c.tw", "file", "@slot('p')@slot('q')")]
+                ops = [op_new("tpl", ".tw")] * reps
+            elif k == 5:
+                files = [("tpl/%s.tw" % nm, "file", "{{ ) }}" if j < 2 else "fine") for j, nm in enumerate(rng.sample(self.KEYS, 4))]
+                ops = [op_new("tpl", ".tw")] * reps
+            else:
+                obj = self.obj_lit(rng, nk)
+                files = [("tpl/pg.tw", "file", "@component('~c', %s)" % self.obj_lit(rng, nk, failing=2) + "|{{ %s }}" % obj),
+                         ("tpl/components/c.tw", "file", "C")]
+                ops = [op_new("tpl", ".tw")] + [op_string("pg")] * reps
+            cons = ["eq:%d:%d" % (j, j + 1) for j in range(len(ops) - 1) if not (k == 6 and j == 0)] + ["nopanic"]
+            for p in range(procs):
+                lines.append(tree_case("C14:%d_p%d" % (i, p), files, ops, cons))
+        return lines, {"exhaustive": False, "distribution": {"histories": n, "repetitions": reps, "fresh_processes": procs}}
+
+    def post_check(self, results):
+        groups = {}
+        for r in results:
+            key = r["case"].split("\t", 1)[1]
+            groups.setdefault(key, []).append(r)
+        bad = []
+        for key, rs in groups.items():
+            if len({r["impl"] for r in rs}) > 1:
+                bad.append((rs[0], "the same history gave different results in different worker processes"))
+        return bad
+
+
+PROPS["C14"] = C14()
+
+
+# ----------------------------------------------------------------------------- C16
+
+class C16(Prop):
+    timeout_ms = 8000
+    rule = ("a fixed template tree (layout page, component page, failing page, page with a loop) and the operation set "
+            "{String ok, String failing, String missing, Response ok, Response failing, EvaluateString ok, EvaluateString "
+            "failing, EvaluateFile}: every history of length <= 3 (quick) / 4 (thorough) exhaustively and random histories "
+            "to length 12; each operation's observation is compared with the same operation issued first after a fresh "
+            "load. Non-trivial: histories of length >= 2; distinct = distinct histories.")
+    explanation = ("Theorems: frame property on the API state machine - every render operation leaves the state "
+                   "(configuration, registry, loaded programs) unchanged, hence by induction over histories the "
+                   "observation of an operation does not depend on the render operations before it. Correspondence: "
+                   "state-machine model = implementation on every history. Oracle: history vs fresh-state baseline.")
+    assumptions = ["caller data immutability is observed by the harness (deep snapshot before/after), not proved"]
+
+    FILES = [("tpl/home.tw", "file", "@use('~main')@insert('t', name)@insert('b')<b>{{ n + 1 }}</b>@end"),
+             ("tpl/layouts/main.tw", "file", "<t>@reserve('t')</t>@reserve('b')"),
+             ("tpl/cards.tw", "file", "@each(i in items)@component('~card', {v: i})@slot s{{ i }}@end@end"),
+             ("tpl/components/card.tw", "file", "[{{ v }}@slot]"),
+             ("tpl/bad.tw", "file", "partial {{ n }}\n{{ zz }}"),
+             ("tpl/bad2.tw", "file", "{{ n.nofunc() }}")]
+
+    def opset(self):
+        return [op_string("home", TREE_DATA), op_string("bad", TREE_DATA), op_string("missing", TREE_DATA), op_string("cards", TREE_DATA),
+                op_response("home", TREE_DATA), op_response("bad", TREE_DATA), op_response("bad2", TREE_DATA),
+                op_evalstr("{{ n * 2 }}", TREE_DATA), op_evalstr("{{ zz }}"), op_evalfile("tpl/bad.tw", TREE_DATA),
+                op_evalfile("tpl/components/card.tw", "((%s (int 1)))" % hx("v"))]
+
+    def generate(self, rng, tier):
+        ops = self.opset()
+        maxlen = {"quick": 3, "thorough": 4, "search": 2}[tier]
+        hists = []
+        for n in range(1, maxlen + 1):
+            if n <= 2 or tier == "thorough" or n == 3:
+                for t in itertools.product(range(len(ops)), repeat=n):
+                    hists.append(list(t))
+        if tier == "quick":
+            three = [h for h in hists if len(h) == 3]
+            rng.shuffle(three)
+            hists = [h for h in hists if len(h) < 3] + three[:600]
+        for _ in range({"quick": 200, "thorough": 3000, "search": 400}[tier]):
+            hists.append([rng.randrange(len(ops)) for _ in range(rng.choice([5, 8, 12]))])
+        lines = []
+        for i, h in enumerate(hists):
+            lines.append(tree_case("C16:%d" % i, self.FILES, [op_new("tpl", ".tw")] + [ops[j] for j in h], ["ok:0", "nopanic"]))
+        return lines, {"exhaustive": False, "distribution": {"histories": len(hists), "operations": len(ops)},
+                       "exhaustive_part": "all histories of length <= %d over %d operations" % (2 if tier != "thorough" else 4, len(ops))}
+
+    def post_check(self, results):
+        import binascii
+        base = {}
+        parsed = []
+        for r in results:
+            f = r["case"].split("\t")
+            opsx = binascii.unhexlify(f[3]).decode()
+            # split the top-level list into operations
+            items, depth, cur = [], 0, ""
+            for ch in opsx[1:-1]:
+                if ch == "(":
+                    depth += 1
+                if depth > 0:
+                    cur += ch
+                if ch == ")":
+                    depth -= 1
+                    if depth == 0:
+                        items.append(cur)
+                        cur = ""
+            obs = r["impl"].split("\t")[1].split("|") if r["impl"].startswith("TREE\t") else None
+            parsed.append((r, items, obs))
+            if obs and len(items) == 2 and len(obs) == 2:
+                base[items[1]] = obs[1]
+        bad = []
+        for r, items, obs in parsed:
+            if obs is None:
+                bad.append((r, "history did not complete: " + r["impl"][:60]))
+                continue
+            for k in range(1, len(items)):
+                b = base.get(items[k])
+                if b is not None and k < len(obs) and obs[k] != b:
+                    bad.append((r, "operation %d of the history differs from the same operation issued first after a fresh load" % k))
+                    break
+        return bad
+
+    def nontrivial(self, r):
+        return r["impl"].count("|") >= 2
+
+
+PROPS["C16"] = C16()
+
+
+# ----------------------------------------------------------------------------- C17
+
+class C17(Prop):
+    timeout_ms = 6000
+    rule = ("all combinations of {debug on, off} x {no custom error page, valid custom page, missing custom page, failing "
+            "custom page} x templates that succeed / fail at run time at every statement position of a 5-statement page "
+            "(after producing output) / do not exist. Oracle from the property text: success => body = String output and nil "
+            "error; failure => non-nil error, the body holds no part of the failed page, it is the custom page when one "
+            "works and debug is off, else the built-in page, else empty; debug off => body holds neither message nor path; "
+            "debug on => body holds message, path and line. Exhaustive over the combination table; the position and kind "
+            "of the failure are varied randomly.")
+    explanation = ("Theorems: with debug off the built-in error page renders to the same bytes whatever the error's "
+                   "message, path and line (the body is a constant function of the error: non-interference), with debug on "
+                   "it contains all three; Response writes the page only when String succeeded. Correspondence: Response "
+                   "model = implementation. Oracle: the selection table above.")
+    assumptions = ["http.ResponseWriter is an in-memory recorder; only the body and the returned error are observed"]
+
+    MARK = "PARTIAL-OUTPUT-7731"
+
+    def page(self, rng, fail_at):
+        stmts = ["<h1>{{ name }}</h1>", "@if(flag)%s@end" % self.MARK, "@each(i in items){{ i }}@end", "<p>%s {{ n }}</p>" % self.MARK, "end"]
+        if fail_at is not None:
+            fault = rng.choice(["{{ secretvar }}", "{{ 1 + 'secretmsg' }}", "{{ n.secretfn() }}", "{{ user.secretprop }}", "{{ n / secretzero }}"])
+            stmts.insert(fail_at, fault)
+        return self.MARK + "\n" + "\n".join(stmts)
+
+    def generate(self, rng, tier):
+        lines = []
+        reps = {"quick": 6, "thorough": 60, "search": 10}[tier]
+        i = 0
+        for debug in (0, 1):
+            for custom in ("none", "valid", "missing", "failing"):
+                for outcome in ("ok", "fail", "missing"):
+                    for _ in range(reps):
+                        fail_at = rng.randrange(0, 6) if outcome == "fail" else None
+                        files = [("tpl/pg.tw", "file", self.page(rng, fail_at))]
+                        errpage = ""
+                        if custom == "valid":
+                            files.append(("tpl/errpg.tw", "file", "<h1>custom error page</h1>"))
+                            errpage = "errpg"
+                        elif custom == "missing":
+                            errpage = "nosuchpage"
+                        elif custom == "failing":
+                            files.append(("tpl/errpg.tw", "file", "custom {{ undefinedincustom }}"))
+                            errpage = "errpg"
+                        name = "pg" if outcome != "missing" else "ghost"
+                        ops = [op_new("tpl", ".tw", errpage, debug), op_response(name, TREE_DATA), op_string(name, TREE_DATA)]
+                        cons = ["nopanic", "ok:0"]
+                        if outcome == "ok":
+                            cons += ["ok:1", "ok:2", "body:1:" + hx(self.MARK)]
+                        else:
+                            cons += ["err:1", "err:2", "nobody:1:" + hx(self.MARK)]
+                            if debug == 0:
+                                cons += ["nobodymsg:1", "nobody:1:" + hx("secret"), "nobody:1:" + hx("$ROOT"), "nobody:1:" + hx("tpl/"),
+                                         "nobody:1:" + hx("template not found")]
+                                if custom == "valid":
+                                    cons += ["body:1:" + hx("custom error page")]
+                                elif custom == "none":
+                                    cons += ["body:1:" + hx("Oops!")]
+                            else:
+                                cons += ["body:1:" + hx("$ROOT/tpl/" + name + ".tw"), "body:1:" + hx("Error!")]
+                                cons += ["bodymsg:1"]
+                        lines.append(tree_case("C17:%d" % i, files, ops, cons))
+                        i += 1
+        return lines, {"exhaustive": True, "distribution": {"combinations": 24, "repetitions": reps}}
+
+
+PROPS["C17"] = C17()
+
+
+# ----------------------------------------------------------------------------- C18
+
+class C18(Prop):
+    timeout_ms = 6000
+    rule = ("directory trees with up to 5 files over the names {a, b, a.tw, b.tw.bak, notes.twx, x.tw/inner, layouts/l} at "
+            "depth <= 2 x directory spellings {d, d/, ./d, d/sub/.., d//, d/e} x extensions {.tw, .tw.html, .html}; oracle: "
+            "NewTemplate registers exactly the files that end in the extension under their relative name, layouts are not "
+            "renderable, unknown names are 'template not found', EvaluateFile = EvaluateString of the content. Fault "
+            "enumeration over valid trees: every file x {deleted (layout/component), truncated at every prefix, replaced by "
+            "garbage, dangling symlink, directory in its place}: loading returns an error that names the faulty file (path or "
+            "name) or succeeds when the truncated file is still valid, and never panics or hangs.")
+    explanation = ("Theorems: name derivation is prefix/suffix trimming, so distinct files get distinct names and a file is "
+                   "registered iff its path ends in the extension (model lemmas); loading is all-or-nothing (the model "
+                   "returns either a template table or one error). Correspondence: loader model = implementation on every "
+                   "tree. Oracle: the expected name set and the fault table.")
+    assumptions = ["unreadable files cannot be produced when the harness runs as root; dangling symlinks and directories stand in for them"]
+
+    def generate(self, rng, tier):
+        lines = []
+        spell = [("d", "d"), ("d/", "d"), ("./d", "d"), ("d/sub/..", "d"), ("d//", "d"), ("d/e", "d/e"), ("./d/e/", "d/e")]
+        exts = [".tw", ".tw.html", ".html"]
+        n = {"quick": 400, "thorough": 5000, "search": 1000}[tier]
+        for i in range(n):
+            sp, real = rng.choice(spell)
+            ext = rng.choice(exts)
+            cands = [("a" + ext, "A"), ("b" + ext, "B{{ 1 }}"), ("sub/c" + ext, "C"), ("sub/deep/d" + ext, "D"), ("a" + ext + ".bak", "@if("),
+                     ("notes" + ext + "x", "{{ ) }}"), ("x" + ext + "/inner" + ext, "I"), ("layouts/l" + ext, "L@reserve('r')"),
+                     ("readme.md", "@if("), ("sub/a" + ext, "SA")]
+            chosen = rng.sample(cands, rng.choice([1, 2, 3, 4, 5]))
+            files = [(real + "/" + p, "file", c) for p, c in chosen]
+            if rng.random() < 0.3:
+                files.append((real + "/emptydir", "dir", ""))
+            names = sorted(p[: -len(ext)] for p, c in chosen if p.endswith(ext) and "@reserve" not in c)
+            ops = [op_new(sp, ext)]
+            cons = ["nopanic", "out:0:" + (",".join(hx(x) for x in names) if names else "-")]
+            k = 1
+            for nm in names[:2]:
+                content = dict((p[: -len(ext)], c) for p, c in chosen if p.endswith(ext))[nm]
+                ops += [op_string(nm), op_evalstr(content), op_evalfile(real + "/" + nm + ext)]
+                cons += ["eq:%d:%d" % (k, k + 1), "eq:%d:%d" % (k + 1, k + 2)]
+                k += 3
+            ops.append(op_string("no/such"))
+            cons += ["err:%d" % k, "msgsub:%d:%s" % (k, hx("template not found"))]
+            k += 1
+            if any("@reserve" in c and p.endswith(ext) for p, c in chosen):
+                ops.append(op_string("layouts/l"))
+                cons += ["err:%d" % k]
+            lines.append(tree_case("C18:%d" % i, files, ops, cons))
+        # fault enumeration on valid trees
+        base = [("tpl/pg.tw", "@use('~m')@insert('t', 1)@component('~c', {a: 2})@slot body@end"), ("tpl/layouts/m.tw", "<l>@reserve('t')</l>"),
+                ("tpl/components/c.tw", "[{{ a }}@slot]"), ("tpl/plain.tw", "@if(true)ok@else no@end{{ 1 + 2 }}")]
+        j = 0
+        for fi, (path, content) in enumerate(base):
+            variants = [("garbage", "file", "@if({{ ] ) @end {"), ("dangling", "dangling", ""), ("dir", "dir", "")]
+            if path != "tpl/pg.tw" and path != "tpl/plain.tw":
+                variants.append(("deleted", None, None))
+            step = 1 if tier == "thorough" else 3
+            for cut in range(0, len(content), step):
+                variants.append(("prefix%d" % cut, "file", content[:cut]))
+            for vname, kind, c in variants:
+                files = []
+                for p2, c2 in base:
+                    if p2 == path:
+                        if kind is not None:
+                            files.append((p2, kind, c if kind == "file" else ""))
+                    else:
+                        files.append((p2, "file", c2))
+                nm = path.split("/")[-1][:-3]
+                cons = ["nopanic"]
+                if vname in ("garbage", "dangling", "deleted"):
+                    cons += ["err:0", "msgsub:0:" + hx("")]
+                lines.append(tree_case("C18:f%d" % j, files, [op_new("tpl", ".tw"), op_string("plain")], cons))
+                j += 1
+        return lines, {"exhaustive": False, "distribution": {"trees": n, "fault_variants": j}}
+
+    def post_check(self, results):
+        # a failing load must identify the faulty file: by path, or by the layout/component name in the message
+        import binascii
+        bad = []
+        for r in results:
+            f = r["case"].split("\t")
+            if not f[0].startswith("C18:f") or not r["impl"].startswith("TREE\t"):
+                continue
+            first = r["impl"].split("\t")[1].split("|")[0].split(" ")
+            if first[0] != "ERR":
+                continue
+            path = binascii.unhexlify(first[2]).decode() if first[2] != "-" else ""
+            msg = binascii.unhexlify(first[3]).decode(errors="replace") if first[3] != "-" else ""
+            if not path and not any(x in msg for x in ("layouts/m", "components/c", "~m", "~c", "tpl")):
+                bad.append((r, "the load error identifies no file: " + msg[:80]))
+        return bad
+
+
+PROPS["C18"] = C18()
+
+
+# ----------------------------------------------------------------------------- C20
+
+class C20(Prop):
+    timeout_ms = 6000
+    rule = ("operation histories over {Register(type, name, fn), call on a literal, call on a variable, NewTemplate}: every "
+            "sequence of length <= 3 (quick) / 4 (thorough) over the five receiver types x names {myfn, len (collides with "
+            "a built-in for strings, arrays, integers)} x two functions per type, followed by calls on a literal and on a "
+            "variable of every type; the expected observation of every step is computed from the abstract registry (first "
+            "registration per (type, name) wins; built-in first). Argument/result conversion: echo and args functions "
+            "called with nested arrays/objects, ints, floats, strings, booleans, nil. Unregistered calls must name function "
+            "and type.")
+    explanation = ("Theorems: registry state machine - after any history the registered function for (type, name) is the "
+                   "first one registered, the k-th attempt fails iff an earlier one succeeded, types are independent; "
+                   "object -> native -> object conversion is the identity on int/float/string/bool/nil/array/object. "
+                   "Correspondence: API model = implementation on every history. Oracle: abstract registry.")
+    TYPES = {"str": ("STRING", "'abc'", "sv", {"const": "K", "const2": "K2", "id": "abc"}),
+             "arr": ("ARRAY", "[5, 6]", "av", {"const": "1, x", "const2": "2", "id": "5, 6"}),
+             "int": ("INTEGER", "7", "iv", {"const": "42", "const2": "43", "id": "7"}),
+             "float": ("FLOAT", "2.5", "fv", {"const": "1.5", "const2": "2.5", "id": "2.5"}),
+             "bool": ("BOOLEAN", "true", "bv", {"const": "1", "const2": "0", "id": "1"})}
+    DATA = "((%s (str %s)) (%s (slice (int 5) (int 6))) (%s (int 7)) (%s (f64 %s)) (%s (bool 1)))" % (
+        hx("sv"), hx("abc"), hx("av"), hx("iv"), hx("fv"), f64bits(2.5), hx("bv"))
+    BUILTIN_LEN = {"str": "3", "arr": "2", "int": "1"}
+
+    def generate(self, rng, tier):
+        lines = []
+        regs = [(t, n, f) for t in self.TYPES for n in ("myfn", "len") for f in ("const", "const2")]
+        maxlen = {"quick": 2, "thorough": 3, "search": 2}[tier]
+        seqs = []
+        for n in range(1, maxlen + 1):
+            for s in itertools.product(range(len(regs)), repeat=n):
+                seqs.append(list(s))
+        if tier != "thorough":
+            extra = [[rng.randrange(len(regs)) for _ in range(rng.choice([3, 4]))] for _ in range(600)]
+            seqs += extra
+        for i, s in enumerate(seqs):
+            ops, cons, table = [], ["nopanic"], {}
+            files = [("tpl/p.tw", "file", "page")]
+            for k, ri in enumerate(s):
+                t, n, f = regs[ri]
+                if rng.random() < 0.15:
+                    ops.append(op_new("tpl", ".tw"))
+                    cons.append("ok:%d" % (len(ops) - 1))
+                ops.append("(reg %s %s %s)" % (t, hx(n), f))
+                if (t, n) in table:
+                    cons += ["err:%d" % (len(ops) - 1), "msgsub:%d:%s" % (len(ops) - 1, hx(n))]
+                else:
+                    table[(t, n)] = f
+                    cons.append("ok:%d" % (len(ops) - 1))
+            # calls on literals and variables of every type
+            for t, (tyname, lit, var, outs) in self.TYPES.items():
+                for n in ("myfn", "len"):
+                    for recv in (lit, var):
+                        ops.append(op_evalstr("{{ %s.%s() }}" % (recv, n), self.DATA))
+                        idx = len(ops) - 1
+                        if n == "len" and t in self.BUILTIN_LEN:
+                            cons.append("out:%d:%s" % (idx, hx(self.BUILTIN_LEN[t])))
+                        elif (t, n) in table:
+                            cons.append("out:%d:%s" % (idx, hx(outs[table[(t, n)]])))
+                        else:
+                            cons += ["err:%d" % idx, "msgsub:%d:%s" % (idx, hx(n)), "msgsub:%d:%s" % (idx, hx(tyname))]
+            lines.append(tree_case("C20:%d" % i, files, ops, cons))
+        # conversion of arguments and results
+        argsets = ["1", "1, 2.5, 'x', true, nil", "[1, [2, 'a'], {k: [nil]}]", "{a: {b: {c: 1}}, z: []}", "-5, 0.5", "[]", "{}", "'é<'",
+                   "9223372036854775807", "[[[]]]", "[1.5, {q: false}]"]
+        for i, a in enumerate(argsets):
+            ops = ["(reg str %s echo)" % hx("ec"), "(reg arr %s args)" % hx("ar"), "(reg arr %s echo)" % hx("ec"),
+                   "(reg int %s nargs)" % hx("na"), op_evalstr("{{ 'r'.ec(%s) }}" % a), op_evalstr("{{ [1, 'z'].ec(%s) }}" % a),
+                   op_evalstr("{{ [0].ar(%s) }}|{{ [%s] }}" % (a, a)), op_evalstr("{{ 3.na(%s) }}" % a),
+                   op_new("tpl", ".tw"), op_evalstr("{{ 'r'.ec(%s) }}" % a)]
+            cons = ["nopanic", "ok:0", "ok:1", "ok:2", "ok:3", "ok:4", "ok:5", "ok:6", "ok:7", "eq:4:9"]
+            lines.append(tree_case("C20:c%d" % i, [("tpl/p.tw", "file", "p")], ops, cons))
+        return lines, {"exhaustive": False, "distribution": {"registration_sequences": len(seqs), "conversion_cases": len(argsets)},
+                       "exhaustive_part": "all registration sequences of length <= %d over %d (type, name, fn) triples" % (maxlen, len(regs))}
+
+    def post_check(self, results):
+        # the result of args(...) must print like the same literal array: "{{ [0].ar(a) }}|{{ [a] }}"
+        import binascii
+        bad = []
+        for r in results:
+            f = r["case"].split("\t")
+            if not f[0].startswith("C20:c") or not r["impl"].startswith("TREE\t"):
+                continue
+            obs = r["impl"].split("\t")[1].split("|")
+            if len(obs) > 6 and obs[6].startswith("OK "):
+                out = binascii.unhexlify(obs[6][3:]).decode(errors="replace")
+                if "|" in out:
+                    a, b = out.split("|", 1)
+                    if a != b:
+                        bad.append((r, "a function result does not appear as if the Go value had been passed as data: %r vs %r" % (a, b)))
+        return bad
+
+
+PROPS["C20"] = C20()
